@@ -29,7 +29,7 @@ fn thue_morse(len: usize) -> Vec<u8> {
     (0..len).map(|i| if (i as u64).count_ones() % 2 == 0 { b'a' } else { b'b' }).collect()
 }
 
-const FAMILIES: [&str; 23] = [
+const FAMILIES: [&str; 27] = [
     "am1b_in_a",            // a^(m-1)b in a^n: every position a long partial match
     "am1b_in_am1c",         // a^(m-1)b in (a^(m-1)c)^r
     "am1b_in_am2_bm1",      // a^(m-1)b in (a^(m-2) b^(m-1))^r: every a is a candidate that fails late
@@ -50,6 +50,10 @@ const FAMILIES: [&str; 23] = [
     "prefix_then_periodic", // (ab)^k bb behind a candidate-free prefix and a long (ab)* run: every other offset is a candidate agreeing with almost the whole needle
     "matches_then_barren",  // a^m matches densely in the first half, second half barren
     "barren_then_matches",  // mirror image
+    "barren_then_ab",       // needle "ab": x^(n/2) (ab)^(n/4)
+    "ab_then_barren",       // mirror image
+    "barren_then_abcab",    // needle "abcab" back to back behind a barren half
+    "abcab_then_barren",    // mirror image
     "dense_1byte",          // needle "a" in a^n
     "dense_2byte",          // needle "aa" in a^n
     "dense_empty",          // empty needle in any haystack
@@ -196,6 +200,16 @@ fn instance(family: &str, n: usize, m: usize) -> (Vec<u8>, Vec<u8>) {
             h.extend(vec![b'a'; n - n / 2]);
             (vec![b'a'; m.min(64)], h)
         }
+        // a short needle matching back to back in one half of the haystack,
+        // the other half free of every needle byte: an iterator that re-scans
+        // text it has passed (or not yet reached) per match is quadratic here
+        "barren_then_ab" | "ab_then_barren" | "barren_then_abcab" | "abcab_then_barren" => {
+            let unit: &[u8] = if family.contains("abcab") { b"abcab" } else { b"ab" };
+            let dense = rep(unit, n / 2 / unit.len() * unit.len());
+            let barren = vec![b'x'; n - dense.len()];
+            let h = if family.starts_with("barren") { [barren, dense].concat() } else { [dense, barren].concat() };
+            (unit.to_vec(), h)
+        }
         "dense_1byte" => (b"a".to_vec(), vec![b'a'; n]),
         "dense_2byte" => (b"aa".to_vec(), vec![b'a'; n]),
         "dense_empty" => (vec![], vec![b'a'; n]),
@@ -312,13 +326,13 @@ fn main() {
         let ns: &[usize] = if thorough { &[1 << 12, 1 << 14, 1 << 16, 1 << 18, 1 << 20] } else { &[1 << 12, 1 << 15] };
         let ms: &[usize] = if thorough { &[8, 24, 32, 33, 64, 200, 250, 1000, 4000, 16000] } else { &[8, 32, 33, 250, 1000, 4000, 8000] };
         for fam in FAMILIES {
-            let dense = fam.starts_with("dense_");
+            let dense = fam.starts_with("dense_") || ["barren_then_ab", "ab_then_barren", "barren_then_abcab", "abcab_then_barren"].contains(&fam);
             // forward families also run the reverse operations (they are the
             // mirror-image worst cases only for bam1_in_a, but must be linear
             // everywhere); one-shot memmem::{find,rfind} on the families where
             // the < 64 / Rabin-Karp routing matters
             let ops: &[&str] = if dense || fam.contains("barren") {
-                &["find_iter", "rfind_iter"]
+                if fam.contains("_then_") && dense { &["find_iter", "rfind_iter", "find_iter_nopre"] } else { &["find_iter", "rfind_iter"] }
             } else if fam == "rk_collision" || fam == "am1b_in_a" {
                 &["find", "rfind", "find_iter", "rfind_iter", "memmem_find", "memmem_rfind", "find_nopre"]
             } else if thorough {
@@ -334,6 +348,14 @@ fn main() {
                     for op in ops {
                         println!("{} {} {} {}", op, fam, n, m);
                     }
+                }
+            }
+            // iteration over many matches next to a long barren region: a
+            // per-match cost proportional to the barren part only shows at
+            // scale (vectorised scans cost ~0.1 instruction per byte)
+            if !thorough && (dense || fam.contains("barren")) {
+                for op in ops {
+                    println!("{} {} {} {}", op, fam, 1 << 18, 8);
                 }
             }
             // needles comparable in size to the haystack (few windows, each
